@@ -27,7 +27,7 @@ DEFAULT = dict(
                                    'touch'],
     p_refuse_step=0.0, n_muts=(1, 3), p_q_near_output=0.5, p_plant=0.0, p_double_clean=0.0,
     p_plain_build=0.0, p_swap_groups=0.0, p_fail_after_nested=0.0,
-    p_switch_root=0.3, p_anc_target=0.0, p_stepargs=0.0,
+    p_switch_root=0.3, p_anc_target=0.0, p_stepargs=0.0, p_chain=0.0,
 )
 
 # JSON values for arguments / return values / versions (C07, C16)
@@ -304,6 +304,78 @@ class Gen:
             self.p['body_len'] = save
 
     # ------------------------------------------------------------------
+    def gen_chain(self, U, idx0):
+        """A structured program: a chain of nested build_file / subbuild
+        calls, each level with its own failure mode and catch clause, plus
+        leaf outputs next to it.  Random soup rarely produces deep chains in
+        which an inner level succeeds and an outer one fails afterwards."""
+        rng = self.rng
+        depth = rng.randint(2, 4)
+        O = [o for o in self.antichain(U, depth + 2) if '/' in o]
+        tries = 0
+        while len(O) < depth + 2 and tries < 60:
+            tries += 1
+            cand = '/'.join(rng.choice(NAMES) for _ in range(rng.randint(2, 3)))
+            if not any(cand == o or cand.startswith(o + '/') or
+                       o.startswith(cand + '/') for o in O):
+                O.append(cand)
+        paths = list(O)
+        rng.shuffle(paths)
+        funcs = {}
+        leaf = 'F%d' % idx0
+        funcs[leaf] = {'kind': 'file', 'name': 'n' + leaf, 'variants': [
+            [['w', 'once']]]}
+        idx = idx0 + 1
+        call = None             # statement that calls the level below
+        for lvl in range(depth):
+            kind = 'file' if (lvl == 0 or rng.random() < 0.65) else 'sub'
+            fid = ('F%d' if kind == 'file' else 'S%d') % idx
+            idx += 1
+            body = []
+            for _ in range(rng.randint(0, 2)):
+                body.append(self.gen_query(U))
+            if call is not None:
+                body.append(call)
+            if rng.random() < 0.5 and paths:
+                body.append(['bf', paths.pop(), leaf, [lvl], {},
+                             rng.choice(['METADATA', 'HASH']), True])
+            for _ in range(rng.randint(0, 2)):
+                body.append(self.gen_query(U))
+            mode = rng.choice(['ok', 'ok', 'ok', 'raise_after',
+                               'raise_after', 'raise_before', 'nowrite',
+                               'unlink'] if kind == 'file' else
+                              ['ok', 'ok', 'ok', 'raise_after'])
+            if kind == 'file':
+                if mode == 'raise_before':
+                    body.insert(0, ['raise', rng.choice(USER_EXC)])
+                elif mode == 'unlink':
+                    body.append(['w', 'unlink'])
+                elif mode != 'nowrite':
+                    body.insert(rng.randint(0, len(body)), ['w', 'once'])
+            if mode == 'raise_after':
+                body.append(['raise', rng.choice(USER_EXC)])
+            funcs[fid] = {'kind': kind, 'name': 'n' + fid,
+                          'variants': [body]}
+            catch = rng.random() < 0.8
+            if kind == 'file':
+                if not paths:
+                    paths = list(O)
+                call = ['bf', paths.pop(), fid, [], {},
+                        rng.choice(['METADATA', 'HASH']), catch]
+            else:
+                call = ['sb', fid, [], {}, catch]
+        root = []
+        for _ in range(rng.randint(0, 2)):
+            root.append(self.gen_query(U))
+        call = list(call)
+        call[6 if call[0] == 'bf' else 4] = True
+        root.append(call)
+        for _ in range(rng.randint(0, 3)):
+            root.append(self.gen_query(U))
+        files = [f for f in funcs if funcs[f]['kind'] == 'file']
+        subs = [f for f in funcs if funcs[f]['kind'] == 'sub']
+        return funcs, root, {'O': O, 'files': files, 'subs': subs}, idx
+
     def gen_program(self, U):
         rng = self.rng
         funcs = {}
@@ -311,6 +383,17 @@ class Gen:
         groups = []
         ng = self.ri('n_groups')
         idx = 0
+        if self.chance('p_chain'):
+            for g in range(ng):
+                self.cur_O = None
+                f, root, grp, idx = self.gen_chain(U, idx)
+                self.cur_O = grp['O']
+                funcs.update(f)
+                roots.append(root)
+                groups.append(grp)
+            self.U_final = sorted(set(U) | set(
+                o for g in groups for o in g['O']))
+            return funcs, roots, groups
         prev_O = None
         for g in range(ng):
             O = self.antichain(U, rng.randint(1, 4))
